@@ -147,7 +147,7 @@ def rand_soup(rng):
 
 # ---- programs ----------------------------------------------------------------------------------
 
-DELIMS = ['.', ',', ';', ':', '\\zd ', '.,', ';:']
+DELIMS = ['.', ',', ';', ':', '\\zd ', '.,', ';:', ' ']      # ' ': a parameter delimited by a blank (its argument is one word)
 
 
 def rand_sig(rng, i):
@@ -188,6 +188,9 @@ def rand_call(rng, ctx, depth, params, callee, allow_delim, callable_ids=None):
         d = delims[k + 1] if delims else ''
         # arguments of delimited parameters hold only plain words, groups and undelimited calls (no delimiter hidden in braces)
         # ... and no parameter of the enclosing body: its substituted text could bring the delimiter in at brace level 0
+        if d == ' ':
+            args.append(words(rng, ctx, 1))      # the blank that ends the word is the delimiter
+            continue
         args.append(rand_arg(rng, ctx, depth - 1, params if d == '' else 0, allow_delim=(d == '' and allow_delim and not is_delim),
                              callable_ids=callable_ids))
     opt = None
@@ -208,6 +211,8 @@ def rand_call(rng, ctx, depth, params, callee, allow_delim, callable_ids=None):
             how['csname'] = route
     if not is_delim and args and rng.random() < 0.3:
         how['argsep'] = rng.choice([' ', ' ', '  ', '\n'])      # blanks in front of braced undelimited arguments
+    if not is_delim and args and opt is None and not sig['opt'] and 'csname' not in how and 'argsep' not in how and rng.random() < 0.12:
+        how['ea'] = True      # \\expandafter\\m{..}: the token after \\m is a brace, which cannot be expanded - same meaning as \\m{..}
     return ['call', callee, opt, args, how]
 
 
@@ -403,6 +408,8 @@ class Printer2(ML.Printer):
         if k == 'call':
             _, name, opt, args, how = n
             how = how or {}
+            if how.get('ea') and not how.get('delims') and args and opt is None:
+                return '\\expandafter' + self.head(name, how) + ''.join('{' + self.nodes(a) + '}' for a in args)
             if not how.get('delims') and (how.get('argsep') or how.get('csname') == 'pfx'):
                 s = self.head(name, how) + (('[' + self.nodes(opt) + ']') if opt is not None else '')
                 if not args and opt is None:
